@@ -19,7 +19,7 @@
    Tan record layer (Model/TanRecord.v): frame / replay, see below. *)
 From DB Require Import Base.Bytes Gen.GenC09 Gen.GenC10 Model.LogStoreSpec Model.KV Model.LogDBPlain
   Model.LogDBBatched Model.LogDBFaulty Model.TanRecord Proofs.LogDBPlain Proofs.LogDBFaulty
-  Proofs.LogDBFaultySpec Proofs.TanRecord.
+  Proofs.LogDBFaultySpec Proofs.TanRecord Proofs.TanRecordMulti.
 Open Scope N_scope.
 
 (* ERROR PROPAGATION.  If any KV call (read or write) made by an operation of the current
@@ -124,14 +124,23 @@ Print Assumptions recovered_log_gap_free_and_ends_at_max.
 
 (* TAN RECORD LAYER (Model/TanRecord.v; ck = the checksum function, a parameter of which
    only ck b < 2^32 is used; lognum = the reader's log number).
-   _partial: proved for logs whose records are all written as full chunks inside the first
-   32 KB block ([fits]); records split into first/middle/last chunks and the zero padding at
-   block ends are compared differentially only (real writer/reader vs the extracted model,
-   frames byte for byte, cuts around every block boundary). *)
-Theorem tan_replay_roundtrip_partial : forall ck lognum, (forall b, ck b < 2 ^ 32) ->
-  forall rs, fits rs -> replay ck lognum (frame ck rs) = (rs, VEof).
-Proof. exact tan_replay_roundtrip_fits. Qed.
-Print Assumptions tan_replay_roundtrip_partial.
+   Records of ARBITRARY sizes: full chunks, first / middle / last chunks over any number of
+   32 KB blocks, zero padding when fewer than 7 bytes are left in a block, records ending
+   exactly at a block boundary, a trailer smaller than a chunk header. *)
+Theorem tan_replay_roundtrip : forall ck lognum, (forall b, ck b < 2 ^ 32) ->
+  forall rs, replay ck lognum (frame ck rs) = (rs, VEof).
+Proof. exact tan_replay_roundtrip_proved. Qed.
+Print Assumptions tan_replay_roundtrip.
+
+(* Anything after the complete records (garbage, zeroes, a torn or foreign chunk): if the
+   reader rejects the first record it finds there - for whatever reason, v is its verdict -
+   replay returns exactly the complete records.  v can be VCrc (a chunk-shaped tail with a
+   wrong checksum), which open() does not treat as a torn tail: see the report. *)
+Theorem tan_replay_rejected_tail : forall ck lognum, (forall b, ck b < 2 ^ 32) ->
+  forall rs g v, read_record ck lognum (nlen (frame ck rs) mod blk) g = RecStop v ->
+  replay ck lognum (frame ck rs ++ g) = (rs, v).
+Proof. exact tan_replay_rejected_tail_proved. Qed.
+Print Assumptions tan_replay_rejected_tail.
 
 (* Covered corruption: the log is CUT (truncated) at any byte inside its last record -
    inside the 7 byte chunk header or inside the payload.  Replay returns exactly the complete
